@@ -24,6 +24,12 @@ type GuardRow struct {
 	// <receiver>.<Mutex> of the enclosing method, whose receiver must be of this type (e.g. the
 	// chain pointers of orderedmap.Element are guarded by OrderedMap.mutex).
 	ViaRecvType string
+	// CondLock: the tabled conditional-lock idiom. A function that takes the mutex under a branch
+	// whose condition contains one of these keys (e.g. ".unsubscribeFromWeightUpdates!=nil": "not
+	// the initial, synchronous invocation - that one runs inside the registering function's own
+	// critical section") is treated as holding it afterwards. Keyed by the condition, not by the
+	// function, so that moving the code into a named method does not change the verdict.
+	CondLock map[string]string
 }
 
 type guardedField struct {
@@ -146,6 +152,64 @@ func checkGuards(r *Reporter, p *Prog, rule string, rows []GuardRow) {
 						}
 					}
 				}
+				// conditional-lock idiom (GuardRow.CondLock): function-like scopes (the declaration or
+				// a function literal) that take the mutex under a tabled condition
+				type condScope struct {
+					from, to token.Pos
+					path     string
+				}
+				var condScopes []condScope
+				{
+					var lits []*ast.FuncLit
+					ast.Inspect(fd.Body, func(n ast.Node) bool {
+						if l, ok := n.(*ast.FuncLit); ok {
+							lits = append(lits, l)
+						}
+						return true
+					})
+					for i := range rows {
+						row := &rows[i]
+						if row.Pkg != pkg || len(row.CondLock) == 0 {
+							continue
+						}
+						ast.Inspect(fd.Body, func(n ast.Node) bool {
+							is, ok := n.(*ast.IfStmt)
+							if !ok {
+								return true
+							}
+							ck := exprKey(is.Cond)
+							for sub := range row.CondLock {
+								if !strings.Contains(ck, sub) {
+									continue
+								}
+								for _, st := range is.Body.List {
+									if es, ok := st.(*ast.ExprStmt); ok {
+										if c, ok := es.X.(*ast.CallExpr); ok {
+											if op, path := lockOp(info, c); op == "Lock" && strings.HasSuffix(path, "."+row.Mutex) {
+												from, to := fd.Body.Pos(), fd.Body.End()
+												for _, l := range lits {
+													if l.Pos() <= is.Pos() && is.End() <= l.End() && l.Pos() >= from {
+														from, to = l.Pos(), l.End()
+													}
+												}
+												condScopes = append(condScopes, condScope{from, to, path})
+											}
+										}
+									}
+								}
+							}
+							return true
+						})
+					}
+				}
+				condLocked := func(pos token.Pos, want string) bool {
+					for _, cs := range condScopes {
+						if cs.from <= pos && pos <= cs.to && cs.path == want {
+							return true
+						}
+					}
+					return false
+				}
 				fresh := freshLocals(info, fd.Body)
 				seen := map[ast.Node]bool{}
 				opts := &FlowOpts{Info: info, SyncCallee: syncCalleeDefault(info)}
@@ -236,7 +300,7 @@ func checkGuards(r *Reporter, p *Prog, rule string, rows []GuardRow) {
 							}
 							want = recvPath + "." + gf.row.Mutex
 						}
-						if held[want] < need {
+						if held[want] < need && !condLocked(x.Pos(), want) {
 							a.bad = append(a.bad, fmt.Sprintf("%s: %s of %s needs %s held %s, held: %s", p.posStr(x.Pos()), map[bool]string{true: "write", false: "read"}[write], displayPath(base)+"."+gf.field, displayPath(want), modeS, held))
 							fnN := needs[fkey]
 							if fnN == nil {
@@ -318,7 +382,7 @@ func checkGuards(r *Reporter, p *Prog, rule string, rows []GuardRow) {
 							}
 							base += embeddedChain(sel, len(sel.Index())-1)
 							want := base + "." + row.Mutex
-							if held[want] < need {
+							if held[want] < need && !condLocked(x.Pos(), want) {
 								a.bad = append(a.bad, fmt.Sprintf("%s: call of caller-holds helper %s needs %s held %s, held: %s", p.posStr(x.Pos()), fn.Name(), displayPath(want), need, held))
 							}
 						}
